@@ -286,6 +286,126 @@ class SphinxFragmentSystem(System):
         return Obs(digest=("ok", warn.count("WARNING")), nontrivial=bool(warn.strip()))
 
 
+# ------------------------------------------------------------------------------------------------
+# slots x atoms: every place of the syntax that accepts free text, filled with every "nasty" atom
+TEMPLATES = [
+    "[a](@)\n", "<@>\n", "[a](inv:@)\n", "[a](inv:k:@#x)\n", "[a](inv:#@)\n", "[a](#@)\n", "[a](project:@)\n", "<path:@>\n", "![a](@)\n", "[@](u)\n", "![@](u)\n",
+    "[a](u \"@\")\n", "{abbr}`@`\n", "{@}`x`\n", "{math}`@`\n", "{ref}`@`\n", "```{@}\nbody\n```\n", "```{image} @\n```\n", "```{note} @\nbody\n```\n",
+    "```{admonition} @\nbody\n```\n", "```{note}\n:class: @\n\nbody\n```\n", "```{note}\n:@: x\n\nbody\n```\n", "```{note}\n---\nclass: @\n---\nbody\n```\n",
+    "```{figure} f.png\n:width: @\n:name: @\n\ncap\n```\n", "```{code-block} @\n:emphasize-lines: @\n\ncode\n```\n", "```@\ncode\n```\n", "```{include} @\n```\n",
+    "```{include} ok.md\n:start-line: @\n```\n", "```{include} ok.md\n:heading-offset: @\n```\n", "```{include} ok.md\n:start-after: @\n```\n", "```{include} ok.md\n:code: @\n```\n",
+    "```{line-block}\n@\n  @\n```\n", "```{list-table}\n:widths: @\n\n- - a\n```\n", "```{csv-table}\n:delim: @\n\na,b\n```\n", "```{eval-rst}\n@\n```\n",
+    "---\na: @\n---\n", "---\n@: 1\n---\n", "---\ntitle: @\nauthor: @\n---\n", "---\nmyst:\n  heading_anchors: @\n---\n# H\n", "---\nmyst:\n  enable_extensions: @\n---\n",
+    "---\nmyst:\n  url_schemes: @\n---\n[l](http://x)\n", "---\nmyst:\n  substitutions:\n    k: @\n---\n{{k}}\n", "---\nmyst:\n  html_meta:\n    @: @\n---\n",
+    "---\nmyst:\n  heading_slug_func: @\n---\n# H\n", "---\nmyst:\n  @: 1\n---\n", "x[^@]\n\n[^@]: note\n", "[@]: http://u\n\n[x][@]\n", "(@)=\n# H\n\n[](#@)\n",
+    "{#@ .@ k=@}\n# H\n", "![a](b){width=@ #@}\n", "[s]{.@ #@}\n", "{{ @ }}\n", "{{ a|@ }}\n", "# @\n\n## @\n\n[](#@)\n", "|a|@|\n|-|-|\n|@|b|\n", "$@$ and $$@$$ (@)\n",
+    "\\begin{@}x\\end{@}\n", "<img src=\"@\" alt=\"@\">\n", "<div class=\"@\">\n<p>x</p>\n</div>\n", "<div class=\"admonition @\" name=\"@\">\n<p class=\"title\">@</p>\n<p>x</p>\n</div>\n",
+    "<@>x</@>\n", "Term @\n: def @\n", ":field @: body @\n", "- [@] task\n", "@\n===\n", "> @\n", "1. @\n", "+++ @\n", "% @\n", "@\n",
+]
+ATOMS = [
+    "", " ", "a", "\u00b2", "1e9", "-1", "0", "99999999999999999999", "[", "]", "[x", "://[x", "//[x]", "%zz", "%00", "%", "\\", "\"", "'", "{", "}", "{{", "}}", "*", "`", "|", ":", "#",
+    "<", ">", "&", "&#0;", "&#x110000;", "\t", "a" * 300, "\u00e9", "\u2028", "../x", "/", ".", "..", "~", "!", "|\u00b2", "null", "true", "2020-01-01", "!!binary aGk=", "*x", "&x y",
+    "- a", "? a", "[1, 2]", "{a: b}", "a: b", "a # b", "x\ny", "\u202e", "\ud7ff", "\x7f", "$", "\\n", "os.nope", "os.", "a.b.c",
+]
+
+
+class SlotSystem(System):
+    name = "slots"
+
+    def __init__(self, tier):
+        super().__init__(tier)
+        self.description = (f"{len(TEMPLATES)} templates, one per place of the syntax that accepts free text (link parts, role / directive names, arguments, option keys and values, "
+                            f"front-matter keys and values incl. every myst: field kind, labels, attributes, substitutions, headings, cells, math, HTML attributes ...) x {len(ATOMS)} atoms "
+                            "(empty, blanks, brackets, percent escapes, quotes, YAML indicators, control and bidi characters, very long, non-ASCII digits, paths) — every placeholder of a template gets the same atom; "
+                            "docutils front end")
+
+    def prepare(self, ctx):
+        self.dir = ctx.scratch / "c01"
+        prepare_files(self.dir)
+        self.settings = base_settings(self.dir)
+        self.root = ctx.scratch / "c01sxslots"
+        self.root.mkdir(exist_ok=True)
+
+    def bounds(self):
+        return {"templates": len(TEMPLATES), "atoms": len(ATOMS)}
+
+    def alphabet(self):
+        return {"templates": TEMPLATES, "atoms": ATOMS}
+
+    def rule(self):
+        return "one case = (template, atom); non-trivial = a report was produced"
+
+    def cases(self):
+        for t in range(len(TEMPLATES)):
+            for a in range(len(ATOMS)):
+                yield [t, a]
+
+    def run(self, case):
+        t, a = case
+        text = TEMPLATES[t].replace("@", ATOMS[a])
+        v, dig, rep = run_docutils(text, self.settings, str(self.dir / "x.md"))
+        return Obs(digest=dig, nontrivial=rep, violations=v[:2], canon=(t, a))
+
+
+class SphinxSlotSystem(System):
+    """the same product through the in-process Sphinx front end (its own workers: a Sphinx app re-registers docutils directives process-wide)"""
+
+    name = "slots-sphinx"
+    jobs = 8
+
+    def __init__(self, tier):
+        super().__init__(tier)
+        self.description = f"{len(TEMPLATES)} templates x {len(ATOMS)} atoms through an in-process Sphinx application (read + post-transforms)"
+
+    def prepare(self, ctx):
+        self.root = ctx.scratch / "c01sxslots"
+        self.root.mkdir(exist_ok=True)
+
+    def worker_init(self, wid):
+        from ..drivers import SphinxDriver
+
+        conf = (f"myst_enable_extensions={EXT!r}\nmyst_heading_anchors=2\nmyst_title_to_header=True\nmyst_substitutions={SUBS!r}\n")
+        self.drv = SphinxDriver(self.root / f"w{wid}", conf=conf)
+        prepare_files(self.drv.src)
+
+    def bounds(self):
+        return {"templates": len(TEMPLATES), "atoms": len(ATOMS)}
+
+    def rule(self):
+        return "one case = (template, atom); non-trivial = the read produced a warning"
+
+    def cases(self):
+        for t in range(len(TEMPLATES)):
+            for a in range(len(ATOMS)):
+                yield [t, a]
+
+    def run(self, case):
+        t, a = case
+        text = TEMPLATES[t].replace("@", ATOMS[a])
+        if not hasattr(self, "drv"):
+            self.worker_init(99)
+        try:
+            text.encode("utf8")
+        except UnicodeEncodeError:
+            return Obs(digest="unencodable", nontrivial=False)  # a lone surrogate cannot be stored in a source file
+        try:
+            doc, warn = self.drv.read("t", text, resolve=True)
+        except RecursionError:
+            return Obs(digest="recursion", nontrivial=False)
+        except Exception as exc:
+            sg = sig_of(exc)
+            sg["front_end"] = "sphinx"
+            try:
+                self.drv.app.env.temp_data.clear()
+                self.drv.app.env.ref_context.clear()
+            except Exception:
+                pass
+            return Obs(digest=("EXC", sg["exc"], sg["myst_function"]),
+                       violations=[violation("uncaught-exception", sg, f"{type(exc).__name__}: {str(exc)[:300]} (front end: Sphinx)", text=text,
+                                             traceback="".join(traceback.format_exception(exc))[-2500:])])
+        return Obs(digest=("ok", warn.count("WARNING")), nontrivial=bool(warn.strip()))
+
+
 MODES = [
     {}, {"myst_commonmark_only": True}, {"myst_all_links_external": True}, {"myst_heading_anchors": 3, "myst_title_to_header": True},
     {"myst_footnote_sort": False, "myst_footnote_transition": False},
@@ -438,4 +558,4 @@ class FaultSystem(System):
 
 
 def systems(tier):
-    return [SoupSystem(tier), FragmentSystem(tier), SphinxFragmentSystem(tier), ConfigSystem(tier), FaultSystem(tier)]
+    return [SoupSystem(tier), FragmentSystem(tier), SlotSystem(tier), SphinxFragmentSystem(tier), SphinxSlotSystem(tier), ConfigSystem(tier), FaultSystem(tier)]
